@@ -1,36 +1,18 @@
-// C07 harness: open-path offsetting (EndType Joined/Butt/Square/Round) on polylines, 1-point and 2-point paths and
-// mixtures.  The real results are judged by the Lean Spec (`STROKECHECK`), and compared with each other
-// (`SAMEPATHS` for +delta/-delta and for an added distant path, `SAMEREGION` for reversed paths).
+// C07 harness: open-path offsetting (EndType Joined/Butt/Square/Round) on polylines, 1-point and 2-point paths, empty
+// paths and mixtures.  The real results are judged by the Lean Spec (`STROKECHECK`), and compared with each other
+// (`SAMEPATHS` for +delta/-delta, `STROKE_SAMEREGION` for reversed paths and for an added distant path).
 //
-// argv[3] == "kf-empty-path"        : executes the known defect  InflatePaths({{}, {(0,0),(10,0)}}, 5, Round, Butt)
-// argv[3] == "kf-empty-path-joined" : executes its twin          InflatePaths({{}, {(0,0),(10,0),(10,10)}}, 5, Round, Joined)
-// (both read element 0 of an empty vector: the sanitizer aborts the process, so they are kept out of the normal run)
+// History: four deviations found with this harness were repaired in /repo (fix: commits bd5ab48, 85fe8ed, 66a5d0a and,
+// for Polygon groups, 058ce9d / 7cb0e75): a 2-point path in a Joined group left end_type_ = Square/Round for the later
+// paths of the group; an empty path in a non-Polygon group read path[0] / norms[0] of an empty vector; |delta| < 0.5
+// returned open paths as closed polygons.  Their inputs are now ordinary corpus records (labels corpus.offset-*), and
+// the generic generator places 2-point paths anywhere, emits empty paths and uses |delta| < 0.5 (including 0).
 #include "offset_common.h"
 #include "clipper.engine.cpp"
 #include "clipper.offset.cpp"
 #include "clipper.rectclip.cpp"
 using namespace vh;
 using namespace vo;
-
-// Two state leaks of ClipperOffset::DoGroupOffset exist on the current tree (DESIGN.md §9 items 3 and 6):
-//  (a) a 2-point path in a Joined group overwrites end_type_ for the later paths of the group;
-//  (b) an empty path in a group with an open end type (and in a Joined group) reads path[0] / norms[0] of an empty vector.
-// While this is true the generic generator keeps 2-point paths last in Joined groups and emits no empty paths;
-// the specific inputs are emitted under the labels kf.offset-endtype-leak / kf.offset-empty-path-open-end.
-#ifdef VERIF_OFFSET_DEFECTS_FIXED   // set when building against a tree in which the defects are repaired
-static const bool KNOWN_OFFSET_STATE_DEFECTS_PRESENT = false;
-#else
-static const bool KNOWN_OFFSET_STATE_DEFECTS_PRESENT = true;
-#endif
-
-// A third deviation seen with this harness: for |delta| < 0.5 ExecuteInternal copies the *open* input paths into the solution
-// and unions them as closed polygons, so a counter-clockwise open path comes back as a filled polygon
-// (label kf.offset-open-small-delta).  While true the generic generator keeps |delta| >= 0.5.
-#ifdef VERIF_OFFSET_DEFECTS_FIXED
-static const bool KNOWN_SMALL_DELTA_OPEN_DEFECT_PRESENT = false;
-#else
-static const bool KNOWN_SMALL_DELTA_OPEN_DEFECT_PRESENT = true;
-#endif
 
 static const char* JT_NAME[] = {"square", "bevel", "round", "miter"};
 static const char* ET_NAME[] = {"polygon", "joined", "butt", "square", "round"};
@@ -85,14 +67,8 @@ static bool gen_input(Rng& g, int et, StrokeInput& in) {
     if (g.chance(12)) add_duplicates(g, p, closed);
     in.paths.push_back(p);
   }
-  if (!KNOWN_OFFSET_STATE_DEFECTS_PRESENT && g.chance(5)) in.paths.insert(in.paths.begin() + (g.next() % (in.paths.size() + 1)), Path64());
+  if (g.chance(6)) in.paths.insert(in.paths.begin() + (g.next() % (in.paths.size() + 1)), Path64());
   return true;
-}
-
-// with defect (a) present: in a Joined group every 2-point path goes after the longer ones
-static void order_for_known_defects(Paths64& ps, int et) {
-  if (!KNOWN_OFFSET_STATE_DEFECTS_PRESENT || et != 1) return;
-  std::stable_partition(ps.begin(), ps.end(), [](const Path64& p) { return stripped_len(p, true) != 2; });
 }
 
 struct Params { int jt, et; Q delta, ml, arc; int api; };
@@ -149,7 +125,6 @@ static std::vector<Point64> propose_probes(Rng& g, const Params& pr, const Paths
 
 static void do_case(Rng& g, const StrokeInput& in0, const Params& pr) {
   Paths64 paths = in0.paths;
-  order_for_known_defects(paths, pr.et);
   double d = pr.delta.d(), ad = std::fabs(d);
   std::string tag = std::string(JT_NAME[pr.jt]) + "." + ET_NAME[pr.et];
   Paths64 sol = run_real(paths, pr, d);
@@ -198,8 +173,6 @@ static void do_case(Rng& g, const StrokeInput& in0, const Params& pr) {
         for (auto& q : far) { q.x += dx; q.y += dy; }
         Paths64 more = paths;
         more.insert(more.begin() + (g.next() % (more.size() + 1)), far);
-        order_for_known_defects(more, pr.et);
-        // the order of the original paths among themselves is unchanged by the stable partition
         Paths64 sol_more = run_real(more, pr, d);
         Rect64 nb(b.left - 2 * reach, b.top - 2 * reach, b.right + 2 * reach, b.bottom + 2 * reach);
         Paths64 near_part, far_part;
@@ -233,39 +206,50 @@ static void do_case(Rng& g, const StrokeInput& in0, const Params& pr) {
   stat("input.size.1e" + std::to_string(mag));
 }
 
-// ---------------------------------------------------------------- the specific inputs of the known defects
-static void known_findings() {
-  // (a) DESIGN.md §9 item 3
-  Params pr{3, 1, Q{80, 8}, Q{4, 2}, Q{0, 4}, 0};
-  Paths64 in{{{0, 0}, {100, 0}}, {{1000, 1000}, {1100, 1000}, {1100, 1100}}};
-  Paths64 sol = canon_closed(InflatePaths(in, 10, JoinType::Miter, EndType::Joined, 2.0, 0.0));  // canonical: stable payload hash
-  // fixed probes: both sides of the closing edge (1100,1100)-(1000,1000), the inside of the triangle, the other edges
-  std::vector<Point64> probes = {{1047, 1053}, {1053, 1047}, {1044, 1056}, {1056, 1044}, {1020, 1026}, {1026, 1020}, {1070, 1030}, {1060, 1020},
-                                 {1050, 1005}, {1050, 995}, {1095, 1050}, {1105, 1050}, {1200, 1200}, {50, 5}, {50, -5}, {-8, 0}, {108, 0}, {50, 30}};
-  emitS("kf.offset-endtype-leak", stroke_request(pr, in, sol, probes));
-  // (c) |delta| < 0.5 on an open path: the path is returned as a closed polygon
-  Params p2{2, 2, Q{2, 8}, Q{4, 2}, Q{0, 4}, 0};
-  Paths64 in2{{{0, 0}, {100, 0}, {100, 100}}};
-  Paths64 sol2 = canon_closed(InflatePaths(in2, 0.25, JoinType::Round, EndType::Butt, 2.0, 0.0));
-  emitS("kf.offset-open-small-delta", stroke_request(p2, in2, sol2, {{70, 30}, {90, 50}, {50, 10}, {50, -10}, {110, 50}, {30, 60}}));
-}
-
-static int run_kf_empty(const std::string& mode) {
-  if (mode == "kf-empty-path") {
-    fprintf(stderr, "VERIF-CURRENT: kf.offset-empty-path-open-end InflatePaths({{},{(0,0),(10,0)}},5,Round,Butt)\n");
-    Paths64 in{{}, {{0, 0}, {10, 0}}};
-    Paths64 sol = InflatePaths(in, 5, JoinType::Round, EndType::Butt);
-    Params pr{2, 2, Q{40, 8}, Q{4, 2}, Q{0, 4}, 0};
-    emitS("kf.offset-empty-path-open-end", stroke_request(pr, in, sol, {{5, 0}, {5, 3}, {5, -3}, {-3, 0}, {13, 0}, {5, 9}, {30, 30}}));
-  } else {
-    fprintf(stderr, "VERIF-CURRENT: kf.offset-empty-path-joined InflatePaths({{},{(0,0),(10,0),(10,10)}},5,Round,Joined)\n");
-    Paths64 in{{}, {{0, 0}, {10, 0}, {10, 10}}};
-    Paths64 sol = InflatePaths(in, 5, JoinType::Round, EndType::Joined);
-    Params pr{2, 1, Q{40, 8}, Q{4, 2}, Q{0, 4}, 0};
-    emitS("kf.offset-empty-path-joined", stroke_request(pr, in, sol, {{5, 0}, {5, 3}, {5, -3}, {10, 5}, {7, 7}, {8, 2}, {30, 30}}));
+// ---------------------------------------------------------------- corpus: inputs of the repaired defects
+static void corpus() {
+  // (a) 2-point path before a triangle in a Joined group (was: the triangle offset open-ended)
+  {
+    Params pr{3, 1, Q{80, 8}, Q{4, 2}, Q{0, 4}, 0};
+    Paths64 in{{{0, 0}, {100, 0}}, {{1000, 1000}, {1100, 1000}, {1100, 1100}}};
+    Paths64 sol = canon_closed(InflatePaths(in, 10, JoinType::Miter, EndType::Joined, 2.0, 0.0));
+    // fixed probes: both sides of the closing edge (1100,1100)-(1000,1000), the inside of the triangle, the other edges
+    std::vector<Point64> probes = {{1047, 1053}, {1053, 1047}, {1044, 1056}, {1056, 1044}, {1020, 1026}, {1026, 1020}, {1070, 1030}, {1060, 1020},
+                                   {1050, 1005}, {1050, 995}, {1095, 1050}, {1105, 1050}, {1200, 1200}, {50, 5}, {50, -5}, {-8, 0}, {108, 0}, {50, 30}};
+    emitS("corpus.offset-endtype", stroke_request(pr, in, sol, probes));
+    // the triangle alone gives the same paths as the triangle after the 2-point path
+    Paths64 alone = InflatePaths(Paths64{in[1]}, 10, JoinType::Miter, EndType::Joined, 2.0, 0.0);
+    Paths64 near_part;
+    for (auto& p : sol) if (bounds_of(Paths64{p}).left > 500) near_part.push_back(p);
+    emitS("corpus.offset-endtype", "SAMEPATHS " + S(alone) + " " + S(near_part));
   }
-  flush_stats();
-  return 0;
+  // (b) empty path in a group with an open end type / in a Joined group (was: undefined behaviour)
+  {
+    Paths64 in{{}, {{0, 0}, {10, 0}}};
+    Paths64 sol = canon_closed(InflatePaths(in, 5, JoinType::Round, EndType::Butt));
+    Params pr{2, 2, Q{40, 8}, Q{4, 2}, Q{0, 4}, 0};
+    emitS("corpus.offset-empty-path", stroke_request(pr, in, sol, {{5, 0}, {5, 3}, {5, -3}, {-3, 0}, {13, 0}, {5, 9}, {30, 30}}));
+    Paths64 in2{{}, {{0, 0}, {10, 0}, {10, 10}}};
+    Paths64 sol2 = canon_closed(InflatePaths(in2, 5, JoinType::Round, EndType::Joined));
+    Params pr2{2, 1, Q{40, 8}, Q{4, 2}, Q{0, 4}, 0};
+    emitS("corpus.offset-empty-path", stroke_request(pr2, in2, sol2, {{5, 0}, {5, 3}, {5, -3}, {10, 5}, {7, 7}, {8, 2}, {30, 30}}));
+    // an empty path changes nothing
+    emitS("corpus.offset-empty-path", "SAMEPATHS " + S(sol) + " " + S(InflatePaths(Paths64{in[1]}, 5, JoinType::Round, EndType::Butt)));
+    emitS("corpus.offset-empty-path", "SAMEPATHS " + S(sol2) + " " + S(InflatePaths(Paths64{in2[1]}, 5, JoinType::Round, EndType::Joined)));
+  }
+  // (c) |delta| < 0.5 (and delta = 0) on an open path (was: the path returned as a closed polygon)
+  {
+    Paths64 in{{{0, 0}, {100, 0}, {100, 100}}};
+    std::vector<Point64> probes = {{70, 30}, {90, 50}, {50, 10}, {50, -10}, {110, 50}, {30, 60}};
+    Params p2{2, 2, Q{2, 8}, Q{4, 2}, Q{0, 4}, 0};
+    emitS("corpus.offset-open-small-delta", stroke_request(p2, in, canon_closed(InflatePaths(in, 0.25, JoinType::Round, EndType::Butt, 2.0, 0.0)), probes));
+    Params p0{3, 1, Q{0, 8}, Q{4, 2}, Q{0, 4}, 0};
+    emitS("corpus.offset-open-small-delta", stroke_request(p0, in, canon_closed(InflatePaths(in, 0.0, JoinType::Miter, EndType::Joined, 2.0, 0.0)), probes));
+    ClipperOffset co; co.AddPaths(in, JoinType::Square, EndType::Square);
+    Paths64 sol; co.Execute(-0.375, sol);
+    Params p3{0, 3, Q{-3, 8}, Q{4, 2}, Q{0, 4}, 1};
+    emitS("corpus.offset-open-small-delta", stroke_request(p3, in, canon_closed(sol), probes));
+  }
 }
 
 static Q pick_ml(Rng& g) { static const int64_t v[] = {4, 5, 6, 8, 10}; return Q{v[g.next() % 5], 2}; }
@@ -279,8 +263,7 @@ static Q pick_arc(Rng& g, double ad) {
 int main(int argc, char** argv) {
   Rng g(seed_from_args(argc, argv));
   bool thorough = thorough_from_args(argc, argv);
-  if (argc > 3 && std::string(argv[3]).rfind("kf-empty-path", 0) == 0) return run_kf_empty(argv[3]);
-  known_findings();
+  corpus();
   int N = thorough ? 6000 : 500;
   for (int i = 0; i < N; ++i) {
     Params pr;
@@ -292,7 +275,7 @@ int main(int argc, char** argv) {
     if (!gen_input(g, pr.et, in)) { stat("gen.rejected"); continue; }
     int64_t eighths = log_uniform(g, 8, std::max<int64_t>(9, in.S * 8 / 2));
     if (g.chance(60)) eighths = eighths / 8 * 8;
-    if (g.chance(3)) eighths = g.range(KNOWN_SMALL_DELTA_OPEN_DEFECT_PRESENT ? 4 : 0, 7);  // below 1: single points vanish, below 0.5: nothing is offset
+    if (g.chance(4)) eighths = g.range(0, 7);  // below 1: single points vanish, below 0.5 (and 0): nothing is offset
     if (g.coin()) eighths = -eighths;
     pr.delta = Q{eighths, 8};
     pr.arc = pick_arc(g, std::fabs(pr.delta.d()));
